@@ -364,6 +364,23 @@ func genNode(r *hx.Rng, base int, wholeCore bool) node {
 			}
 		}
 	}
+	// key sets of the NUMA table (cpu -> NUMA id) and the NUMA memory table that differ
+	if nn > 0 && r.Chance(25) {
+		switch r.Intn(5) {
+		case 0, 1: // stale NUMA entries: cores that are not in the cpu map, on a NUMA id without memory entry (Validate accepts)
+			for j := 0; j < r.Range(1, 2); j++ {
+				n.NUMA[cpuID(nc+j)] = "n9"
+			}
+		case 2: // a memory entry for a NUMA id no core maps to (Validate accepts)
+			n.NUMAMem["n8"] = n.Mem / 4
+			n.NUMAMemUse["n8"] = 0
+		case 3: // a NUMA id used by cores of the cpu map without memory entry (Validate rejects; GetCPUPlans accepts)
+			delete(n.NUMAMem, "n0")
+			delete(n.NUMAMemUse, "n0")
+		default: // a core of the cpu map without NUMA entry (Validate rejects; GetCPUPlans accepts)
+			delete(n.NUMA, cpuID(r.Intn(nc)))
+		}
+	}
 	return n
 }
 
@@ -547,6 +564,17 @@ func corpus() []*kase {
 		// not move to the free core 0
 		mk("realloc", 100, -1, node{Cap: map[string]int{"0": 100, "1": 100, "2": 100}, Use: map[string]int{"0": 0, "1": 0, "2": 100}, Mem: 1000, MemUse: 10},
 			request{Keep: true, Bind: true}, 1, &workload{CPU: 1000, CPULim: 1000, Mem: 10, MemLim: 10, Map: map[string]int{"2": 100}, NUMAMem: map[string]int64{}}),
+		// NUMA table with a stale entry (core 2 is not in the cpu map) on a NUMA id that has no memory entry:
+		// Validate accepts the node; every bound path must still work
+		mk("plans", 100, -1, node{Cap: two, Mem: 1000, NUMA: map[string]string{"0": "n0", "1": "n0", "2": "n1"},
+			NUMAMem: map[string]int64{"n0": 500}, NUMAMemUse: map[string]int64{"n0": 0}}, request{Bind: true, CPU: 1000, Mem: 10}, 1, nil),
+		mk("deploy", 100, -1, node{Cap: two, Mem: 1000, NUMA: map[string]string{"0": "n0", "1": "n0", "2": "n1"},
+			NUMAMem: map[string]int64{"n0": 500}, NUMAMemUse: map[string]int64{"n0": 0}}, request{Bind: true, CPU: 1000, CPULim: 1000, Mem: 10, MemLim: 10}, 1, nil),
+		mk("capacity", 100, -1, node{Cap: two, Mem: 1000, NUMA: map[string]string{"0": "n0", "1": "n0", "2": "n1"},
+			NUMAMem: map[string]int64{"n0": 500}, NUMAMemUse: map[string]int64{"n0": 0}}, request{Bind: true, CPU: 1000, CPULim: 1000, Mem: 10, MemLim: 10}, 1, nil),
+		mk("realloc", 100, -1, node{Cap: two, Use: map[string]int{"0": 100, "1": 0}, Mem: 1000, MemUse: 10, NUMA: map[string]string{"0": "n0", "1": "n0", "2": "n1"},
+			NUMAMem: map[string]int64{"n0": 500}, NUMAMemUse: map[string]int64{"n0": 10}}, request{Keep: true}, 1,
+			&workload{CPU: 1000, CPULim: 1000, Mem: 10, MemLim: 10, Map: map[string]int{"0": 100}, NUMA: "n0", NUMAMem: map[string]int64{"n0": 10}}),
 		// D23: fractional workload moved by keep-bind realloc
 		mk("realloc", 100, -1, node{Cap: two, Use: map[string]int{"0": 100, "1": 50}, Mem: 1000, MemUse: 10},
 			request{Keep: true}, 1, &workload{CPU: 1500, CPULim: 1500, Mem: 10, MemLim: 10, Map: map[string]int{"0": 100, "1": 50}, NUMAMem: map[string]int64{}}),
